@@ -209,6 +209,18 @@ def prove(pid, extra_targets=()):
 
 # ----------------------------------------------------------------------------- model runs
 
+def _deep_stack():
+    import resource
+    try:
+        resource.setrlimit(resource.RLIMIT_STACK, (resource.RLIM_INFINITY, resource.RLIM_INFINITY))
+    except (ValueError, OSError):
+        soft, hard = resource.getrlimit(resource.RLIMIT_STACK)
+        try:
+            resource.setrlimit(resource.RLIMIT_STACK, (hard, hard))
+        except (ValueError, OSError):
+            pass
+
+
 def run_driver(entry, lines, shards=16):
     """Feed lines to the extracted model (entry number), sharded; returns {(id,k): toks-string}."""
     drv = os.path.join(BUILD, "ml", "driver")
@@ -218,7 +230,8 @@ def run_driver(entry, lines, shards=16):
     chunks = [lines[i::shards] for i in range(shards)]
     procs = []
     for c in chunks:
-        p = subprocess.Popen([drv, str(entry)], stdin=subprocess.PIPE, stdout=subprocess.PIPE, text=True)
+        # extracted list functions are not tail recursive: observations of a few 10^5 tokens need a deep stack
+        p = subprocess.Popen([drv, str(entry)], stdin=subprocess.PIPE, stdout=subprocess.PIPE, text=True, preexec_fn=_deep_stack)
         procs.append((p, c))
     import threading
     outs = [None] * len(procs)
